@@ -157,7 +157,17 @@ class C05(Engine):
 				a = oracle.get(state, truly_cold=True)
 				b = oracle.get(state, truly_cold=False)
 				if a['status'] != 'ok' or b['status'] != 'ok':
-					raise HarnessError(f"validation pool {which} does not transpile: {a.get('error')} / {b.get('error')}")
+					# is it the corpus (harness trouble) or the caches (the canonical cache-disabled case will report it)?
+					probe = Project(pool, tag='nocache')
+					try:
+						plain = probe.run(force=True, enabled=False)
+					finally:
+						probe.destroy()
+					if plain['status'] != 'ok':
+						raise HarnessError(f"validation pool {which} does not transpile: {a.get('error')} / {b.get('error')}")
+					ev.bump('probes', 'validation pool fails from an empty cache directory but transpiles with caching disabled')
+					self.enum_counts[f'{which}:cold'] = self.enum_counts[f'{which}:edit'] = 0
+					continue
 				if a['outputs'] != b['outputs']:
 					raise HarnessError(f'library-seeded cold run differs from truly cold run on validation pool {which}: {first_diff(b["outputs"], a["outputs"])}')
 			finally:
@@ -212,6 +222,8 @@ class C05(Engine):
 				# exchange the contents of two sibling modules that one importer imports both (identity must not be a multiset of hashes)
 				c([op_run(), {'op': 'edit', 'm': 'src.sb', 'v': 1, 'dt': 10**9}, {'op': 'edit', 'm': 'src.sc', 'v': 0, 'dt': 10**9}, op_run()])
 				c([op_run(), {'op': 'edit', 'm': 'src.sb', 'v': 2, 'dt': 10**9}, op_run(), {'op': 'edit', 'm': 'src.sc', 'v': 2, 'dt': 10**9}, {'op': 'edit', 'm': 'src.sb', 'v': 1, 'dt': 10**9}, op_run()])
+				# the two siblings byte-identical at the same time (same text, same imports: one Module.identity for two modules), then apart again
+				c([{'op': 'edit', 'm': 'src.sc', 'v': 0, 'dt': 10**9}, op_run(), op_run(), op_run(enabled=False), {'op': 'edit', 'm': 'src.sb', 'v': 2, 'dt': 10**9}, op_run(), op_run()])
 		# prefix-related sibling modules that do not import each other, the longer-named one loaded first (src.ab before src.a)
 		rngp = random.Random(9)
 		fan = pools.gen_pool(rngp, shape='fan', n_variants=3, allow_invalid=False, names=['src.d', 'src.ab', 'src.a', 'src.a_b'], swap_p=0.0)
